@@ -186,6 +186,11 @@ pub trait Scenario: Sync + Send {
     fn process_per_run(&self) -> bool {
         false
     }
+    /// False for scenarios that contain a scheduler the harness does not own (stated in their
+    /// assumptions): their verdicts are timing-independent but their traces are not replay-exact.
+    fn replay_exact(&self) -> bool {
+        true
+    }
 }
 
 pub trait DynScenario: Sync + Send {
@@ -201,6 +206,7 @@ pub trait DynScenario: Sync + Send {
     fn rule(&self) -> &'static str;
     fn fault_rates(&self) -> Vec<u64>;
     fn process_per_run(&self) -> bool;
+    fn replay_exact(&self) -> bool;
 }
 
 impl<S: Scenario> DynScenario for S {
@@ -244,6 +250,9 @@ impl<S: Scenario> DynScenario for S {
     }
     fn process_per_run(&self) -> bool {
         Scenario::process_per_run(self)
+    }
+    fn replay_exact(&self) -> bool {
+        Scenario::replay_exact(self)
     }
 }
 
@@ -1083,6 +1092,10 @@ pub fn selftest_worker(scn: &'static dyn DynScenario, seed: u64, runs: u64, offs
 
 /// Determinism self-test (parent): two worker counts, fingerprints compared per run.
 pub fn selftest_determinism(scn: &'static dyn DynScenario, seed: u64, runs: u64, jobs: usize) -> i32 {
+    if !scn.replay_exact() {
+        println!("selftest-determinism {} {}: skipped — not replay-exact by design (contains a scheduler the harness does not own; see the scenario's assumptions)", scn.property(), scn.name());
+        return 0;
+    }
     let exe = std::env::current_exe().expect("current exe");
     let mut all: Vec<BTreeMap<u64, String>> = vec![];
     let mut bad = 0u64;
